@@ -5,12 +5,15 @@
    creates a value cell only when it is absent); mrun true ... : the pinned code (Register stores a
    fresh zero).  uses_as k name : name is used as a metric of kind k only (registrations of it all
    say k, value operations on it are of kind k, it is not also a Store()d constant, counts >= 0). *)
-From Refinery Require Import Lib.Base Model.Metrics Proofs.Metrics Model.MetricsConc Proofs.MetricsConc Gen.GenC33.
+From Refinery Require Import Lib.Base Model.Metrics Proofs.Metrics Model.MetricsConc Proofs.MetricsConc Model.Recorder Proofs.Recorder Gen.GenC33.
 
 Theorem C33_source_shape :
   register_keeps_existing_counter = true /\ register_keeps_existing_gauge = true /\
   register_keeps_existing_updown = true /\ register_replaces_a_cell = false /\
-  hd ""%string get_lookup_order = "stores"%string.
+  hd ""%string get_lookup_order = "stores"%string /\
+  (* sample/sample.go: the dynsampler metrics recorder takes its snapshot while holding its mutex *)
+  recorder_snapshot_taken_under_mutex = true /\ recorder_snapshot_taken_before_mutex = false /\
+  recorder_counts_delta_to_last_seen = true.
 Proof. repeat split; vm_compute; congruence. Qed.
 Print Assumptions C33_source_shape.
 
@@ -105,6 +108,32 @@ Theorem C33_interleaved_updown : forall name (threads : list (list mop)) ops,
   if reg_or_used name (concat threads) then Some (udsum name (concat threads)) else None.
 Proof. exact interleaved_updown. Qed.
 Print Assumptions C33_interleaved_updown.
+
+(* The dynsampler metrics recorder (sample/sample.go) feeds the sampler's cumulative counters into the
+   store as deltas to the last value seen. With the snapshot taken under the recorder's mutex, for
+   every interleaving of any number of goroutines with any growth of the sampler's counters: the
+   store is the last applied snapshot minus the value at registration, every Count() argument is
+   >= 0 (the counter never decreases), and whenever nobody is inside RecordMetrics the store shows
+   exactly the latest snapshot taken. *)
+Theorem C33_recorder_follows_source : forall s0 evs,
+  let c := rrun false (rinit s0) evs in
+  store c = last c - s0 /\ Forall (fun d => 0 <= d) (deltas c) /\ last c <= latest c /\ latest c <= src c.
+Proof. exact recorder_follows_source. Qed.
+Print Assumptions C33_recorder_follows_source.
+Theorem C33_recorder_store_is_latest_snapshot : forall s0 evs,
+  let c := rrun false (rinit s0) evs in
+  quiescent c = true -> store c = latest c - s0.
+Proof. exact recorder_store_is_latest_snapshot. Qed.
+Print Assumptions C33_recorder_store_is_latest_snapshot.
+(* Snapshot taken before the mutex: a stale snapshot is applied after a newer one, Count(name, -2),
+   the counter runs backwards (7 -> 5) and stays behind the sampler. *)
+Theorem C33_recorder_snapshot_before_lock_refuted :
+  exists evs,
+    let c := rrun true (rinit 0) evs in
+    quiescent c = true /\ store c <> latest c - 0 /\ In (-2) (deltas c) /\
+    store (rrun true (rinit 0) (firstn 6 evs)) = 7 /\ store c = 5.
+Proof. exact snapshot_before_lock_refuted. Qed.
+Print Assumptions C33_recorder_snapshot_before_lock_refuted.
 
 (* The pinned code: registering a counter again resets it (2 -> 0). *)
 Theorem C33_pinned_code_reregister_resets :
